@@ -456,6 +456,19 @@ fn zerv_roundtrip(req: &Value) -> Value {
         None => ZervSchema::new(core, extra, build).unwrap(),
     };
     let z = Zerv { schema, vars: vars_of(&req["vars"]) };
+    if req["pipe"].as_bool() == Some(true) {
+        // the steps of the pipe kernel on the real code: what a direct run ends with (to_zerv, default arguments), its
+        // emitted document through the stdin source, and to_zerv again
+        use zerv::cli::version::{process_cached_stdin_source, VersionArgs, ZervDraft};
+        let args = VersionArgs::default();
+        let z1 = match ZervDraft::new(z.vars.clone(), Some(z.schema.clone())).to_zerv(&args) { Ok(z) => z, Err(e) => return json!({"ok": false, "stage": 1, "err": e.to_string()}) };
+        let doc = z1.to_string();
+        let d2 = match process_cached_stdin_source(&args, Some(&doc)) { Ok(d) => d, Err(e) => return json!({"ok": false, "stage": 2, "err": e.to_string()}) };
+        let z2 = match d2.to_zerv(&args) { Ok(z) => z, Err(e) => return json!({"ok": false, "stage": 3, "err": e.to_string()}) };
+        return json!({"ok": true, "emitted": doc, "emitted2": z2.to_string(),
+                      "object": format!("{:?}|{:?}", z1, z1.schema.precedence_order().to_vec()),
+                      "object2": format!("{:?}|{:?}", z2, z2.schema.precedence_order().to_vec())});
+    }
     let emitted = z.to_string();
     let z2 = match Zerv::from_str(&emitted) { Ok(z) => z, Err(e) => return json!({"ok": false, "emitted": emitted, "err": e.to_string()}) };
     json!({"ok": true, "emitted": emitted, "emitted2": z2.to_string(),
